@@ -44,7 +44,13 @@ func genC20(t *rapid.T) CaseC20 {
 		g.TextGen = genCastText
 	}
 	c.Doc = g.Elem(t, 3)
-	switch rapid.IntRange(0, 5).Draw(t, "vsrc") {
+	switch rapid.IntRange(0, 6).Draw(t, "vsrc") {
+	case 6:
+		// the empty string as a member name on the way to the key
+		c.Value, c.Steps, c.Key = boostEmptyKey(t)
+		for i := range c.Steps {
+			c.Steps[i].Index = -1
+		}
 	case 0:
 		// the key occurs at two depths on one branch
 		k := rapid.SampledFrom(shapeKeys).Draw(t, "k")
@@ -591,6 +597,9 @@ func checkC20(c CaseC20, info *Info) *Failure {
 		listDoc := append(append([]byte("[1,"), jb...), ']')
 		lm, lerr := mxj.NewMapJson(listDoc)
 		for _, k := range setKeys(keys) {
+			if k == "" {
+				continue // a path cannot end in the empty key: searching for it is outside the path language
+			}
 			want := strSet(vm.PathsForKey(k))
 			for name, d := range map[string][]byte{"as encoded": jb, "escaped spelling": escDoc} {
 				if p, e := j2x.JsonPathsForKey(d, k); e != nil || !reflect.DeepEqual(strSet(p), want) {
